@@ -12,6 +12,12 @@
  *   E2  (a > 0) the same with 0x5A before the key: a value that depends on bytes before the key shows up
  *   M   block of 8+a+len+tail bytes whose first 8-byte granule is poisoned by hand: for a = 0 the key starts right
  *       behind a poisoned granule at an address that is 8 mod 16; foreign bytes on both sides
+ *   P   purity under an adversarial prelude: the function is first called on the SAME address and length holding the
+ *       complemented bytes (a cache keyed by address+length would now be stale), errno is preset to ERANGE, then the
+ *       real key is written to the same place and hashed (at odd alignments with the run-time debug level raised
+ *       to 5): the value must be the same as everywhere else
+ *   N   (empty key only) the key given as (NULL, 0, seed): the definitions never touch the key when the length is 0,
+ *       so NULL is one more legitimate place for the empty key
  * ASan therefore sees any read outside [key, key+len); the returned token is the value of the first
  * placement, the state token is "same" iff every placement returned that value.
  */
@@ -19,9 +25,11 @@
 #include <stdint.h>
 
 typedef spif_uint32_t (*hfn_t)(spif_uint8_t *, spif_uint32_t, spif_uint32_t);
-#define H_CALLS_PER_VECTOR 23
+#define H_CALLS_PER_VECTOR 39          /* E:8 E2:7 M:8 P:8x2 */
+#define H_EXTRA_CALLS_EMPTY_KEY 2       /* N at run-time debug level 0 and 5 */
 
 static int key_modified = 0;
+static volatile spif_uint32_t prelude_sink = 0;
 static void vh_begin(void) { key_modified = 0; }
 static void vh_end(void) { }
 
@@ -58,7 +66,7 @@ static hfn_t lookup(const char *op, int *words) {
 
 /* one evaluation: key bytes copied to blk+off, blk of exactly total bytes, optional poisoned first granule */
 static spif_uint32_t eval_at(hfn_t fn, const unsigned char *kb, size_t nbytes, spif_uint32_t lenarg, spif_uint32_t seed,
-                             size_t off, size_t tail, unsigned char fill, int poison_first, unsigned want_align)
+                             size_t off, size_t tail, unsigned char fill, int poison_first, unsigned want_align, int prelude)
 {
     size_t total = off + nbytes + tail, i;
     unsigned char *blk = (unsigned char *) malloc(total ? total : 1);
@@ -76,7 +84,15 @@ static spif_uint32_t eval_at(hfn_t fn, const unsigned char *kb, size_t nbytes, s
     if (total == 0) __asan_poison_memory_region(blk, 1);           /* len 0 at the block start: nothing is readable */
     if (poison_first) __asan_poison_memory_region(blk, 8);
 #endif
+    if (prelude) {
+        for (i = 0; i < nbytes; i++) key[i] = (unsigned char) ~kb[i];
+        prelude_sink ^= fn((spif_uint8_t *) key, lenarg, seed);
+        if (nbytes) memcpy(key, kb, nbytes);
+        errno = ERANGE;
+        if (want_align & 1) libast_debug_level = 5;     /* the value must not depend on the run-time debug level either */
+    }
     r = fn((spif_uint8_t *) key, lenarg, seed);
+    libast_debug_level = 0;
 #ifdef VH_ASAN
     if (total == 0) __asan_unpoison_memory_region(blk, 1);
     if (poison_first) __asan_unpoison_memory_region(blk, 8);
@@ -114,19 +130,34 @@ static const char *vh_step(const vh_step_t *st, vh_sb *ret, vh_sb *state)
         for (i = 0; i < n; i++) kb[i] = (unsigned char) nums[i];
     }
 
-#define ONE(OFF, TAIL, FILL, POISON, TAG) do { \
-        v = eval_at(fn, kb, nbytes, lenarg, seed, (OFF), (TAIL), (FILL), (POISON), a); calls++; \
+#define NOTE(TAG) do { \
+        if (!have) { first = v; have = 1; } \
+        else if (v != first && !diff[0]) \
+            snprintf(diff, sizeof(diff), "differs:align=%u,place=%s,got=[%u,%u]", a, TAG, (unsigned) (v >> 16), (unsigned) (v & 0xffff)); \
+    } while (0)
+#define ONE(OFF, TAIL, FILL, POISON, PRELUDE, TAG) do { \
+        v = eval_at(fn, kb, nbytes, lenarg, seed, (OFF), (TAIL), (FILL), (POISON), a, (PRELUDE)); calls += 1 + (PRELUDE); \
         if (!have) { first = v; have = 1; } \
         else if (v != first && !diff[0]) \
             snprintf(diff, sizeof(diff), "differs:align=%u,place=%s,got=[%u,%u]", a, TAG, (unsigned) (v >> 16), (unsigned) (v & 0xffff)); \
     } while (0)
 
     for (a = 0; a < 8; a++) {
-        ONE(a, 0, 0xA5, 0, "E");
-        if (a) ONE(a, 0, 0x5A, 0, "E2");
-        ONE(8 + a, 5 + a, 0x3C, 1, "M");
+        ONE(a, 0, 0xA5, 0, 0, "E");
+        if (a) ONE(a, 0, 0x5A, 0, 0, "E2");
+        ONE(8 + a, 5 + a, 0x3C, 1, 0, "M");
+        ONE(a, 0, 0xC3, 0, 1, "P");
     }
-    if (calls != H_CALLS_PER_VECTOR) die_machinery("placement count");
+    if (nbytes == 0) {
+        a = 0; v = fn((spif_uint8_t *) NULL, lenarg, seed); calls++;
+        NOTE("NULL");
+        calls++;
+        if (!diff[0]) {     /* (a difference is already on record: report that rather than a possible exit) */
+            libast_debug_level = 5; v = fn((spif_uint8_t *) NULL, lenarg, seed); libast_debug_level = 0;
+            NOTE("NULL,debug=5");
+        }
+    }
+    if (calls != H_CALLS_PER_VECTOR + (nbytes == 0 ? H_EXTRA_CALLS_EMPTY_KEY : 0)) die_machinery("placement count");
     sb_printf(ret, "[%u,%u]", (unsigned) (first >> 16), (unsigned) (first & 0xffff));
     sb_puts(state, diff[0] ? diff : "same");
     if (key_modified) return "key-bytes-modified";
@@ -137,6 +168,6 @@ int main(int argc, char **argv)
 {
     /* the reference vectors are those of a little-endian host (the property's stated assumption) */
     { spif_uint32_t one = 1; if (*(unsigned char *) &one != 1) die_machinery("big-endian host: vectors do not apply"); }
-    if (argc > 1 && !strcmp(argv[1], "--calls-per-vector")) { printf("%d\n", H_CALLS_PER_VECTOR); return 0; }
+    if (argc > 1 && !strcmp(argv[1], "--calls-per-vector")) { printf("%d %d\n", H_CALLS_PER_VECTOR, H_EXTRA_CALLS_EMPTY_KEY); return 0; }
     return vh_main(argc, argv, 1);
 }
